@@ -24,3 +24,12 @@ Theorem C06_forward_preserves : forall m, w_dest m <> -1 ->
   le_bytes 4 (Z.of_nat (length (body m))) ++ le_bytes 4 ((w_dest m + 2 ^ 32) mod 2 ^ 32) ++ body m = pack true m.
 Proof. exact forward_preserves. Qed.
 Print Assumptions C06_forward_preserves.
+
+
+(* JSON values (cereal_boost_json.hpp): decoding what was encoded returns the value and consumes exactly its bytes,
+   whatever follows, for every value within the format's 64-bit limits and at every nesting depth (fuel >= depth) *)
+From Ygm Require Import JsonWire.
+Theorem C06_json_decode_encode_prefix : forall j, jwf j -> forall f rest, (jdepth j <= f)%nat ->
+  decode_json f (encode_json j ++ rest) = Some (j, rest).
+Proof. exact json_decode_encode_prefix. Qed.
+Print Assumptions C06_json_decode_encode_prefix.
